@@ -5,7 +5,7 @@ From MM Require Import lib.ListSet lib.Values model.Heap model.Elig model.Search
   gen.Gen_GeoAssignments gen.Gen_Search
   proofs.EligProofs proofs.GroupSpecs proofs.SearchBridge proofs.ExhaustiveProofs proofs.GreedyProofs proofs.AdmittedProofs.
 Import ListNotations.
-From MM Require Import gen.Gen_HeapDict gen.Gen_Exhaustive proofs.ExhaustiveBridge.
+From MM Require Import gen.Gen_HeapDict gen.Gen_Exhaustive gen.Gen_Greedy proofs.ExhaustiveBridge proofs.GreedyBridge.
 
 (* For every value type (whatever numpy computes), every comparison of scores, every list of
    eligibility rows of the admitted geos, every parameter record and every kernel behaviour: *)
@@ -80,3 +80,14 @@ Proof.
   intros. eapply pushed_legal, results_are_pushed. rewrite <- surjective_pairing. eapply gen_exhaustive_in; eassumption.
 Qed.
 Print Assumptions C01_translated_exhaustive_search_legal.
+
+(* stated on the Gallina regenerated on this run from _greedy_search itself (gen/Gen_Greedy.v) *)
+Theorem C01_translated_greedy_search_legal :
+  forall (V K : Type) (O : vops V) (ltk : K -> K -> bool) (es : list elig) (par : spar V)
+         (shareS : set -> V) (bud : set -> set -> V) (gkey : set -> set -> K) (zero_key : K) (fuel : nat) r d,
+    gen_greedy_search O ltk (assignments_of es) par shareS bud gkey zero_key fuel = Some r -> In d (dd_get r 0%Z) -> legal es (fst (des_groups d)) (snd (des_groups d)).
+Proof.
+  intros until d. intros Hr Hd. destruct (gen_greedy_in O ltk _ par shareS bud gkey zero_key fuel r d Hr Hd) as [ds [Hg Hin]].
+  eapply greedy_sound; [exact Hg|]. rewrite <- surjective_pairing. exact Hin.
+Qed.
+Print Assumptions C01_translated_greedy_search_legal.
